@@ -544,7 +544,8 @@ def string_alphabet_stage(out):
     r = run_tlc("StringAlphabet.tla", os.path.join(SPEC, "StringAlphabet.cfg"), outp, os.path.join(wd, "alphabet.meta"),
                 workers=1, timeout=300, env={"FACTS": fp})
     text = open(outp, errors="replace").read()
-    violated = re.findall(r"Invariant (\w+) is violated", text)
+    # the invariants are constant-level formulas over the scanned facts; TLC words their failure differently
+    violated = re.findall(r"Invariant (\w+) is violated", text) + re.findall(r"The invariant of (\w+) is equal to FALSE", text)
     st = {"stage": "string-alphabet", "module": "StringAlphabet.tla", "facts": facts, "violated": violated}
     out.stages.append(st)
     out.states += 1
@@ -568,9 +569,28 @@ def coded_stage(out, q, seed, err_filter, what="coded regions"):
                     huffman_jobs(out, "huffman-model", scn, tys=("u8",) if q else ("u8", "u16")), err_filter=err_filter)
     c = {"NSlots": 2, "MaxGen0": 2, "MaxMerge": 1, "MaxCoded": 2, "MaxClear": 1, "StrSel": "quick", "Emit": True}
     scn = stage_scenarios(out, "dict-model", "DictMC.tla", c, DICT_INV, timeout=3000)
-    validate_traces(out, "dict-traces", "TraceDict.tla", os.path.join(SPEC, "TraceDict.cfg"), dict_jobs(out, "dict-model", scn, 2),
-                    err_filter=err_filter)
+    validate_traces(out, "dict-traces", "TraceDict.tla", os.path.join(SPEC, "TraceDict.cfg"),
+                    dict_jobs(out, "dict-model", scn, 2, flavours=("region", "stack")), err_filter=err_filter)
     wd = os.path.join(WORK, out.prop)
+    for j in glob.glob(os.path.join(wd, "*.ndjson")):
+        os.remove(j)
+
+
+def coded_columns_stage(out, q, seed, err_filter):
+    """a coded region nested in a fan-out region: ColumnsRegion<HuffmanContainer<u8>> (random rows, merges over
+    differently wide sources in any order, clears), validated against TraceCodedColumns.tla"""
+    wd = os.path.join(WORK, out.prop)
+    os.makedirs(wd, exist_ok=True)
+    jobs = []
+    for prof in ("dev", "release"):
+        tr = os.path.join(wd, "codedcols.%s.ndjson" % prof)
+        rc, o = sh([BIN[prof], "huffcols-run", "--seed", str(seed * 100 + 31), "--runs", str(300 if q else 3000), "--out", tr])
+        if rc != 0:
+            raise ToolError("huffcols-run failed")
+        jobs.append({"label": "codedcols-" + prof, "trace": tr, "scenarios": tr, "profile": profile_label(prof),
+                     "replay": "codedcols", "sigprefix": "coded-columns"})
+    validate_traces(out, "coded-columns-traces", "TraceCodedColumns.tla", os.path.join(SPEC, "TraceCodedColumns.cfg"), jobs,
+                    err_filter=err_filter)
     for j in glob.glob(os.path.join(wd, "*.ndjson")):
         os.remove(j)
 
@@ -578,17 +598,21 @@ def coded_stage(out, q, seed, err_filter, what="coded regions"):
 DICT_INV = ["RoundTrip", "RefuseExact", "RefusalNecessary", "DictSane", "CodedCostsOne"]
 
 
-def dict_jobs(out, name, scn, nslots):
+def dict_jobs(out, name, scn, nslots, flavours=("region",)):
+    """flavours: "region" = CodecRegion<DictionaryCodec>; "stack" = FlatStack over it (copy / get / merge_capacity /
+    clear); the same scenarios, the same trace specification"""
     wd = os.path.join(WORK, out.prop)
     jobs = []
-    for prof in ("dev", "release"):
-        tr = os.path.join(wd, "%s.%s.ndjson" % (name, prof))
-        rc, o = sh([BIN[prof], "dict-run", scn, "--out", tr, "--nslots", str(nslots)], timeout=1800)
-        if rc != 0:
-            log(o[-2000:])
-            raise ToolError("dict-run failed")
-        jobs.append({"label": prof, "trace": tr, "scenarios": scn, "profile": profile_label(prof),
-                     "replay": "dictionary", "sigprefix": "dictionary"})
+    for fl in flavours:
+        for prof in ("dev", "release"):
+            tr = os.path.join(wd, "%s.%s.%s.ndjson" % (name, fl, prof))
+            rc, o = sh([BIN[prof], "dict-run", scn, "--out", tr, "--nslots", str(nslots)] + (["--as-stack"] if fl == "stack" else []), timeout=1800)
+            if rc != 0:
+                log(o[-2000:])
+                raise ToolError("dict-run failed")
+            jobs.append({"label": "%s-%s" % (fl, prof), "trace": tr, "scenarios": scn, "profile": profile_label(prof),
+                         "replay": "dictionary-stack" if fl == "stack" else "dictionary",
+                         "sigprefix": "dictionary-stack" if fl == "stack" else "dictionary"})
     return jobs
 
 
@@ -775,6 +799,7 @@ def run_property(prop, tier, seed):
                      ["push", "push_from"])
         coded_stage(out, q, seed, lambda e: e["why"] in ("push-panicked", "read-failed", "read-differs", "read-back-differs",
                                                          "merge-panicked", "clear-panicked"))
+        coded_columns_stage(out, q, seed, lambda e: e["why"] in ("read-failed", "read-differs", "push-into-merged-panicked"))
         contract_trace_stage(out, ["C01"], q, seed)
     elif prop == "C02":
         region_stage(out, "push-reserve", prop, allnames, 1, 4 if q else 5, 1, 3 if q else 4,
@@ -782,6 +807,7 @@ def run_property(prop, tier, seed):
         region_stage(out, "two-slots", prop, allnames, 2, 3 if q else 4, 1, 3,
                      ["push", "push_from", "reserve_regions"])
         coded_stage(out, q, seed, lambda e: e["why"] == "earlier-item-changed")
+        coded_columns_stage(out, q, seed, lambda e: e["why"] == "earlier-row-changed")
         contract_trace_stage(out, ["C02"], q, seed)
     elif prop == "C04":
         names = subjects_where(cat, lambda e: has_string(e["shape"]))
@@ -802,11 +828,16 @@ def run_property(prop, tier, seed):
         region_stage(out, "clone", prop, names, 2, 4 if q else 5, 1, 3, ["push", "clear", "clone", "clone_from"])
         ic_stage(out, "index-containers", prop, ["vec", "stride", "list", "opt"], "full", 4, 1)
         stack_stage(out, "flatstack", prop, stack_names(), 4, 1, 3, ["copy", "extend", "clear", "clone", "clone_from"])
+        # coded containers: clone and clone_from (into a differently coded container), then the same continuation
+        huffman_random_stage(out, q, seed, lambda e: (e.get("copied", False) or e["why"].startswith("copy")) and not e["why"].startswith("cmp"),
+                             "huffman-copies")
+        contract_trace_stage(out, ["C09"], q, seed)
     elif prop == "C16":
         names = subjects_where(cat, lambda e: e["caps"]["serde"] and not shape_has_f64(e["shape"]))
         region_stage(out, "serde", prop, names, 2, 4 if q else 5, 1, 3, ["push", "clear", "serde"])
         ic_stage(out, "index-containers", prop, ["vec", "stride", "list", "opt"], "full", 4, 1)
         stack_stage(out, "flatstack", prop, stack_names(), 4, 1, 3, ["copy", "extend", "clear", "serde"])
+        contract_trace_stage(out, ["C16"], q, seed)
     elif prop == "C10":
         region_stage(out, "reserve-merge", prop, allnames, 2, 3 if q else 4, 2, 3,
                      ["push", "clear", "reserve_items", "reserve_regions", "merge"])
@@ -815,6 +846,8 @@ def run_property(prop, tier, seed):
         # merged coded regions read back what is pushed, within their acceptance contract
         coded_stage(out, q, seed, lambda e: e["why"] in ("merge-panicked", "read-failed", "read-differs", "read-back-differs",
                                                          "push-panicked", "ambiguous-input-accepted"))
+        coded_columns_stage(out, q, seed, lambda e: e["why"] in ("push-into-merged-panicked", "merge-panicked", "read-failed",
+                                                                   "read-differs", "symbol-outside-statistics-was-stored"))
         contract_trace_stage(out, ["C10"], q, seed)
     elif prop == "C11":
         names = subjects_where(cat, lambda e: shape_has(e["shape"], "collapse"))
@@ -828,6 +861,8 @@ def run_property(prop, tier, seed):
     elif prop == "C13":
         names = subjects_where(cat, lambda e: e["caps"]["get"])
         region_stage(out, "get", prop, names, 1, 4, 0, 3 if q else 4, ["push"], queries=["get"])
+        # FlatStack::get(i): the i-th copy for i < len, a panic beyond - for every index container
+        stack_stage(out, "flatstack-get", prop, stack_names(), 4, 0, 3, ["copy", "extend", "clear"])
     elif prop == "C14":
         names = subjects_where(cat, lambda e: e["caps"]["push_item"])
         region_stage(out, "into-owned", prop, names, 2, 3, 0, 4 if q else 5, ["push", "push_from"],
@@ -894,7 +929,7 @@ def do_replay(prop, path):
     kind = r.get("replay_kind", "replay")
     wd = os.path.join(WORK, "replay")
     os.makedirs(wd, exist_ok=True)
-    if kind in ("huffman", "dictionary", "dictionary-str"):
+    if kind in ("huffman", "dictionary", "dictionary-str", "dictionary-stack"):
         return do_replay_trace(prop, path, r, kind, wd)
     if kind == "alphabet":
         out = Outcome(prop, "quick", 0)
@@ -939,7 +974,8 @@ def do_replay_trace(prop, path, r, kind, wd):
     bad = False
     module, cfg, runner = {"huffman": ("TraceHuffman.tla", "TraceHuffman.cfg", "huff-run"),
                            "dictionary": ("TraceDict.tla", "TraceDict.cfg", "dict-run"),
-                           "dictionary-str": ("TraceDict.tla", "TraceDict.cfg", "dict-run")}[kind]
+                           "dictionary-str": ("TraceDict.tla", "TraceDict.cfg", "dict-run"),
+                           "dictionary-stack": ("TraceDict.tla", "TraceDict.cfg", "dict-run")}[kind]
     for prof in ("dev", "release"):
         tr = os.path.join(wd, "one.%s.ndjson" % prof)
         args = [BIN[prof], runner, scn, "--out", tr]
@@ -947,6 +983,8 @@ def do_replay_trace(prop, path, r, kind, wd):
             args += ["--ty", r.get("ty") or "u8", "--nslots", "4"]
         elif kind == "dictionary-str":
             args += ["--nslots", "5", "--as-str"]
+        elif kind == "dictionary-stack":
+            args += ["--nslots", "5", "--as-stack"]
         else:
             args += ["--nslots", "5"]
         rc, o = sh(args)
